@@ -14,7 +14,7 @@ import random
 from lib import common, formats, stdresp
 from lib.common import Driver, hx
 
-TARGETS = ["ScsiVerif.Props.C06", "ScsiVerif.Props.C06b"]
+TARGETS = ["ScsiVerif.Props.C06", "ScsiVerif.Props.C06b", "ScsiVerif.Props.C06c"]
 NEEDS_GEN = True
 
 
